@@ -807,7 +807,7 @@ pub fn wal_leg(args: &Args) {
 // ---------------------------------------------------------------------------------------------
 // C14: value generators, projection, round trips, mutants through the recovery pipeline
 // ---------------------------------------------------------------------------------------------
-const RIDS: [u64; 6] = [0, 1, 2, 3, 7, u64::MAX];
+const RIDS: [u64; 8] = [0, 1, 2, 3, 7, 65537, 1 << 40, u64::MAX];
 const KINDS: [&str; 8] = ["lww", "lww-tombstone", "lww-unset", "gcounter", "pncounter", "gset", "orset", "hash"];
 
 fn g_rid(rng: &mut Rng) -> ReplicaId {
